@@ -21,6 +21,8 @@ type c06Job struct {
 	Runs   []c06Run
 	Quiet  bool   // run two of three repetitions without the schedule-perturbation hook (it slows the loader's converters down)
 	Mixed  bool   // every fourth repetition runs without the hook (the natural schedule), the others rotate seeds and GOMAXPROCS
+	Plain  bool   // stream `floatties`: only Go's per-process map seed matters; three of four repetitions run without the hook
+	Reps   int    // number of repetitions (0: the tier's default)
 	Fault  string // stream `failing`: what is wrong with the include tree ("none": it loads)
 	NFiles int    // number of journal files of the case
 }
@@ -73,8 +75,13 @@ func runC06(c *Ctx) {
 	dir := filepath.Join(c.WorkDir, "c06")
 	var jobs []*c06Job
 	add := func(j *c06Job) { jobs = append(jobs, j) }
+	// C06_STREAM=<name>: run one stream only (development aid; the check never sets it)
+	want := func(stream string, i int) bool {
+		only := os.Getenv("C06_STREAM")
+		return (only == "" || only == stream) && c.Want(stream, i)
+	}
 	for i := 0; i < n; i++ {
-		if !c.Want("repeat", i) {
+		if !want("repeat", i) {
 			continue
 		}
 		r := c.Rng("repeat", i)
@@ -160,7 +167,7 @@ func runC06(c *Ctx) {
 	// accounts at the same moment (goroutine scheduling decides who registers them): seeded change C06-c lost the re-check
 	// under the registry's write lock, so that the report showed a commodity twice in some runs
 	for i := 0; i < c.N(9, 60); i++ {
-		if !c.Want("shared", i) {
+		if !want("shared", i) {
 			continue
 		}
 		r := c.Rng("shared", i)
@@ -216,10 +223,17 @@ func runC06(c *Ctx) {
 	}
 	// include trees in which a file FAILS (stream `failing`): every command, one or two faults anywhere in the tree
 	for i := 0; i < c.N(120, 600); i++ {
-		if !c.Want("failing", i) {
+		if !want("failing", i) {
 			continue
 		}
 		add(c06FailJob(c, i))
+	}
+	// exact ties reached through float-order-sensitive addends (stream `floatties`)
+	for i := 0; i < c.N(72, 400); i++ {
+		if !want("floatties", i) {
+			continue
+		}
+		add(c06FloatTieJob(c, i))
 	}
 	gomax := []string{"1", "2", "16"}
 	parallelFor(len(jobs), 8, func(q int) {
@@ -244,8 +258,15 @@ func runC06(c *Ctx) {
 			}
 			args[k] = a
 		}
-		for rep := 0; rep < reps; rep++ {
+		nreps := reps
+		if jb.Reps > 0 {
+			nreps = jb.Reps
+		}
+		for rep := 0; rep < nreps; rep++ {
 			env := []string{fmt.Sprintf("KNUT_VERIF_SEED=%d", rep*7919+jb.Idx+1), "GOMAXPROCS=" + gomax[rep%3]}
+			if jb.Plain && rep%4 != 3 {
+				env = env[1:]
+			}
 			if jb.Mixed && rep%4 == 3 {
 				env = []string{"GOMAXPROCS=" + gomax[(rep/4)%3]}
 			}
@@ -258,7 +279,7 @@ func runC06(c *Ctx) {
 			code, so, se := runKnut(c.KnutBin, 30*time.Second, env, args...)
 			jb.Runs = append(jb.Runs, c06Run{Env: env, Code: code, Stdout: so, Stderr: se})
 		}
-		if jb.Idx >= 200000 && jb.Input["files"] == nil {
+		if jb.Idx >= 200000 && jb.Idx < 300000 && jb.Input["files"] == nil {
 			jb.Files = nil // large trees are not kept in memory: the case is regenerated from (seed, stream, index)
 		}
 		if os.Getenv("C06_KEEP") == "" { // C06_KEEP=1: leave the case's files in the work directory (for a replay by hand)
@@ -285,18 +306,27 @@ func runC06(c *Ctx) {
 			delete(in, "files") // regenerated from the layout description (hundreds of kilobytes)
 			in["layout"] = jb.Input["layout"]
 		}
-		if jb.Idx >= 200000 {
+		if jb.Idx >= 200000 && jb.Idx < 300000 {
 			stream, idx = "failing", jb.Idx-200000
 			in["tree"], in["fault"] = jb.Input["tree"], jb.Fault
 			if jb.Input["files"] == nil {
 				delete(in, "files") // large: regenerated from (seed, stream, index); the tree description says what is in them
 			}
 		}
-		sameExit, exits := true, ""
+		if jb.Idx >= 300000 {
+			stream, idx = "floatties", jb.Idx-300000
+			delete(in, "layout")
+			in["files"], in["shape"] = jb.Files, jb.Input["shape"]
+		}
+		sameExit, exits, firstOther := true, "", ""
 		for _, rr := range jb.Runs {
+			if sameExit && rr.Code != r0.Code {
+				firstOther = fmt.Sprintf("\nstderr of the first run with another status (%v):\n%s", rr.Env, rr.Stderr[:min(len(rr.Stderr), 600)])
+			}
 			sameExit = sameExit && rr.Code == r0.Code
 			exits += fmt.Sprintf(" %d", rr.Code)
 		}
+		exits += firstOther
 		c.Monitor(stream, idx, "same_exit_status_every_run", in, sameExit, "exit status of the runs:"+exits)
 		if key := c06KnownDifference(jb); !same && key != "" {
 			c.MonitorKnown(stream, idx, "same_output_every_run", in, detail, key)
@@ -698,4 +728,433 @@ func c06CanonSameDay(out string) string {
 	}
 	flush()
 	return strings.Join(res, "\n")
+}
+
+// ---------------------------------------------------------------- stream `floatties`: exact ties behind float-order-sensitive sums
+//
+// The reports order sibling rows by a weight and break ties by name. A tie is a tie in EXACT arithmetic: the balance report
+// adds decimals, portfolio weights adds float64 values in a fixed order (commodity names, child names, dates). When such a
+// sum is taken in float64 while ranging over a Go map, its last bit depends on the iteration order of that process, two
+// rows that are mathematically equal are no longer equal in some runs, and the name no longer decides (seeded change
+// C06-g: balance sort weights in float64 over the per-period/commodity amounts and the children; the defects repaired in
+// `portfolio weights` by 19865c1 / 54048cb). The tie-rich inputs of stream `repeat` never showed it: their ties are sums of
+// one or two addends like 1, 2, 0.5, which every order adds to the same float.
+//
+// One case = one journal in which sibling rows reach EXACTLY the same total through addends that differ in number, order,
+// sign and magnitude (decimal fractions that are not multiples of a power of two), spread over many periods:
+//   - balance: groups of 2-5 sibling accounts with the same total T: a lump sum; 3-8 instalments; the negated total (the
+//     weight is an absolute value); a subtree whose leaves add up to T (with and without an amount of its own); T spread
+//     over several commodities with constant prices (several entries per period); positions in a commodity whose
+//     two-decimal price changes every month (bought at once, in steps, twice the quantity at half the price, the same
+//     series under another name) against a lump sum of quantity x last price; groups tie with each other as well.
+//     Flags: valued / unvalued, every interval, --diff, -m collapsing leaves, siblings or whole groups into one row, -s,
+//     --last, --from / --to, --csv, -a.
+//   - portfolio weights: k classes of commodities with pairwise equal values on every date (quantity x f at price / f),
+//     >= 3 period end dates, monthly varying prices, further commodities so that weights are not constant; without a
+//     universe (tied sibling commodities), with --universe (tied sibling classes of 5-8 commodities) and -m collapsing
+//     the classes into one row each; text output with up to 15 digits shows the last bits of every sum.
+// Only Go's per-process map seed matters: 24 (thorough: 60) runs per case, three of four without the perturbation hook.
+
+// c06Dec renders thousandths as a decimal literal without trailing zeros.
+func c06Dec(u int64) string {
+	sign := ""
+	if u < 0 {
+		sign, u = "-", -u
+	}
+	s := strings.TrimRight(fmt.Sprintf("%d.%03d", u/1000, u%1000), "0")
+	return sign + strings.TrimSuffix(s, ".")
+}
+
+// c06Split returns m addends (thousandths) of different magnitudes and signs that add up to total exactly.
+func c06Split(r *RNG, total int64, m int) []int64 {
+	parts := make([]int64, m)
+	rest := total
+	for k := 0; k < m-1; k++ {
+		var p int64
+		switch r.Intn(6) {
+		case 0:
+			p = Pick(r, []int64{100, 200, 300, 700, 1100, 2200, 3300, 10, 70, 1, 5, 333, 600, 900})
+		case 1:
+			p = int64(r.Range(1, 999))
+		case 2:
+			p = int64(r.Range(1, 999)) * 10
+		case 3:
+			p = int64(r.Range(1000, 5000000))
+		case 4:
+			p = int64(r.Range(1, 99)) * 100
+		default:
+			p = rest/int64(m-k) + int64(r.Range(-50, 50))
+		}
+		if r.Chance(1, 6) {
+			p = -p
+		}
+		parts[k] = p
+		rest -= p
+	}
+	parts[m-1] = rest
+	for k := m - 1; k > 0; k-- { // the remainder is not always the last instalment
+		q := r.Intn(k + 1)
+		parts[k], parts[q] = parts[q], parts[k]
+	}
+	return parts
+}
+
+type c06FTBook struct {
+	day  int
+	acct string
+	qty  int64 // thousandths
+	com  string
+}
+
+// c06FTText renders opens, prices and bookings (against Equity:Opening) as a journal.
+func c06FTText(r *RNG, open int, prices []string, books []c06FTBook) string {
+	var b strings.Builder
+	seen := map[string]bool{"Equity:Opening": true}
+	fmt.Fprintf(&b, "%s open Equity:Opening\n", fmtDate(open))
+	for _, bk := range books {
+		if !seen[bk.acct] {
+			seen[bk.acct] = true
+			fmt.Fprintf(&b, "%s open %s\n", fmtDate(open), bk.acct)
+		}
+	}
+	b.WriteString("\n")
+	for _, p := range prices {
+		b.WriteString(p)
+	}
+	for n, bk := range books {
+		if bk.qty == 0 {
+			continue
+		}
+		from, to, q := "Equity:Opening", bk.acct, bk.qty
+		if q < 0 && r.Chance(1, 2) {
+			from, to, q = to, from, -q
+		}
+		fmt.Fprintf(&b, "\n%s \"booking %d\"\n%s %s %s %s\n", fmtDate(bk.day), n, from, to, c06Dec(q), bk.com)
+	}
+	return b.String()
+}
+
+func c06Shuffled(r *RNG, xs []string) []string {
+	ys := append([]string{}, xs...)
+	for k := len(ys) - 1; k > 0; k-- {
+		q := r.Intn(k + 1)
+		ys[k], ys[q] = ys[q], ys[k]
+	}
+	return ys
+}
+
+func c06FloatTieJob(c *Ctx, i int) *c06Job {
+	r := c.Rng("floatties", i)
+	jb := &c06Job{Idx: 300000 + i, Plain: true, Reps: c.N(24, 60)}
+	var text, shape string
+	files := map[string]string{}
+	switch i % 4 {
+	case 0, 1:
+		text, shape, jb.Args = c06FloatTieBalance(r)
+		jb.Kind = "balance-floatties"
+	default:
+		var uni string
+		text, uni, shape, jb.Args = c06FloatTieWeights(r, i%4 == 3)
+		jb.Kind = "weights-floatties"
+		if uni != "" {
+			jb.Kind = "weights-universe-floatties"
+			files["uni.yaml"] = uni
+		}
+	}
+	files["j.knut"] = text
+	jb.Files = files
+	jb.Args = append(jb.Args, "@j.knut")
+	jb.Input = map[string]any{"shape": shape}
+	return jb
+}
+
+// c06FloatTieBalance: groups of sibling accounts with exactly equal totals (see the stream's header).
+func c06FloatTieBalance(r *RNG) (text, shape string, args []string) {
+	base := 737000 + r.Intn(1200)
+	span := Pick(r, []int{70, 100, 130, 200, 400, 800})
+	day := func() int { return base + r.Intn(span) }
+	// a commodity whose price changes every month (even cents, so that HLF at half the price is a two-decimal price too)
+	var prices []string
+	last := int64(0)
+	for d, k := base-1, 0; ; k++ {
+		if d > base+span {
+			d = base + span
+		}
+		last = 2 * int64(r.Range(300, 9000))
+		for _, pc := range []struct {
+			com string
+			c   int64
+		}{{"STK", last}, {"TWN", last}, {"HLF", last / 2}} {
+			prices = append(prices, fmt.Sprintf("%s price %s %d.%02d CHF\n", fmtDate(d), pc.com, pc.c/100, pc.c%100))
+		}
+		if d == base+span {
+			break
+		}
+		d += 25 + r.Intn(10)
+	}
+	consts := []struct {
+		com, price string
+		mult       int64
+	}{{"EUR", "0.5", 2}, {"GBP", "0.25", 4}, {"JPY", "0.01", 100}, {"USD", "0.1", 10}}
+	for _, k := range consts {
+		prices = append(prices, fmt.Sprintf("%s price %s %s CHF\n", fmtDate(base-1), k.com, k.price))
+	}
+	var books []c06FTBook
+	instalments := func(acct string, total int64, m int) {
+		for _, p := range c06Split(r, total, m) {
+			books = append(books, c06FTBook{day(), acct, p, "CHF"})
+		}
+	}
+	ng := r.Range(2, 5)
+	gnames := c06Shuffled(r, []string{"Bonds", "Cash", "Funds", "Gold", "Notes", "Stocks", "Zinc", "Art"})
+	sharedT := int64(r.Range(1, 4000)) * Pick(r, []int64{1, 10, 100, 1000})
+	sharedK := r.Range(2, 4)
+	shareType := Pick(r, []string{"Assets", "Assets", "Expenses"})
+	var shapes []string
+	for g := 0; g < ng; g++ {
+		typ := Pick(r, []string{"Assets", "Assets", "Liabilities", "Expenses", "Income"})
+		T, K := int64(r.Range(1, 4000))*Pick(r, []int64{1, 10, 100, 1000}), r.Range(2, 5)
+		if r.Chance(1, 2) {
+			T, K, typ = sharedT, sharedK, shareType // groups that tie with each other
+		}
+		stock := r.Chance(1, 3)
+		qd := int64(r.Range(1, 400)) // tenths of a share
+		if stock {
+			T = qd * last // thousandths: tenths x cents
+		}
+		grp := typ + ":" + gnames[g]
+		snames := c06Shuffled(r, []string{"Alpha", "Beta", "Gamma", "Delta", "Omega", "Zeta", "A1", "b2", "Mid"})
+		var ss []string
+		for k := 0; k < K; k++ {
+			acct := grp + ":" + snames[k]
+			sh := r.Intn(7)
+			if stock && r.Chance(2, 3) {
+				sh = 7 + r.Intn(4)
+			}
+			switch sh {
+			case 0: // lump sum
+				books = append(books, c06FTBook{day(), acct, T, "CHF"})
+				ss = append(ss, "lump")
+			case 1, 2: // instalments
+				m := r.Range(3, 8)
+				instalments(acct, T, m)
+				ss = append(ss, fmt.Sprintf("%d instalments", m))
+			case 3: // the negated total
+				m := r.Range(1, 6)
+				instalments(acct, -T, m)
+				ss = append(ss, fmt.Sprintf("negated, %d instalments", m))
+			case 4, 5: // a subtree (case 5: with an amount of its own)
+				nc := r.Range(2, 4)
+				cn := c06Shuffled(r, []string{"Sub1", "Sub2", "Sub3", "Xtra", "Ynot"})
+				shares := c06Split(r, T, nc+sh-4)
+				for q := 0; q < nc; q++ {
+					child := acct + ":" + cn[q]
+					if r.Chance(1, 4) {
+						child += ":Leaf"
+					}
+					instalments(child, shares[q], r.Range(1, 4))
+				}
+				if sh == 5 {
+					instalments(acct, shares[nc], r.Range(1, 3))
+				}
+				ss = append(ss, fmt.Sprintf("subtree of %d", nc))
+			case 6: // several commodities with constant prices
+				m := r.Range(3, 8)
+				for _, p := range c06Split(r, T, m) {
+					k := Pick(r, consts)
+					if r.Chance(1, 3) {
+						books = append(books, c06FTBook{day(), acct, p, "CHF"})
+					} else {
+						books = append(books, c06FTBook{day(), acct, p * k.mult, k.com})
+					}
+				}
+				ss = append(ss, fmt.Sprintf("%d parts in several commodities", m))
+			case 7: // the position, bought at once
+				books = append(books, c06FTBook{base + r.Intn(span/2), acct, qd * 100, "STK"})
+				ss = append(ss, "STK at once")
+			case 8: // bought in steps
+				m := r.Range(2, 4)
+				rest := qd
+				for q := 0; q < m; q++ {
+					p := rest
+					if q < m-1 {
+						p = int64(r.Range(0, int(rest)))
+					}
+					rest -= p
+					books = append(books, c06FTBook{day(), acct, p * 100, "STK"})
+				}
+				ss = append(ss, fmt.Sprintf("STK in %d steps", m))
+			case 9: // twice the quantity at half the price
+				books = append(books, c06FTBook{base + r.Intn(span/2), acct, qd * 200, "HLF"})
+				ss = append(ss, "HLF")
+			default: // the same series under another name, partly
+				p := int64(r.Range(0, int(qd)))
+				books = append(books, c06FTBook{day(), acct, p * 100, "TWN"}, c06FTBook{day(), acct, (qd - p) * 100, "STK"})
+				ss = append(ss, "TWN + STK")
+			}
+		}
+		shapes = append(shapes, fmt.Sprintf("%s (total %s): %s", grp, c06Dec(T), strings.Join(ss, " | ")))
+	}
+	text = c06FTText(r, base-1, prices, books)
+	// flags
+	args = []string{"balance", "--color=false"}
+	valued := r.Chance(5, 6)
+	if valued {
+		args = append(args, "-v", "CHF")
+	}
+	iv := Pick(r, []string{"", "--days", "--weeks", "--months", "--months", "--quarters", "--years"})
+	if iv != "" {
+		args = append(args, iv)
+	}
+	if iv == "--days" || (iv == "--weeks" && span > 200) || r.Chance(1, 6) {
+		args = append(args, "--last", itoa(r.Range(2, 25)))
+	}
+	if r.Chance(1, 3) {
+		args = append(args, "--diff")
+	}
+	if r.Chance(1, 2) {
+		args = append(args, Pick(r, [][]string{{"-m", "3,."}, {"-m", "2,."}, {"-m", "2,Assets"}, {"-m", "3,^(Assets|Expenses)"}, {"-m", "2:1,."}, {"-m", "1,Liabilities", "-m", "3,."},
+			{"-m", "1,Equity", "-m", "4,."}, {"-m", "2," + gnames[0]}, {"-m", "1:1,."}})...)
+	}
+	if r.Chance(1, 3) {
+		args = append(args, "-s", Pick(r, []string{".", "Assets", gnames[0], "Equity", "Alpha|Zeta"}))
+	}
+	if r.Chance(1, 8) {
+		args = append(args, "--to", fmtDate(base+span/2+r.Intn(span/2)))
+	}
+	if r.Chance(1, 8) {
+		args = append(args, "--from", fmtDate(base+r.Intn(span/2)))
+	}
+	if r.Chance(1, 5) {
+		args = append(args, "--close=false")
+	}
+	if r.Chance(1, 4) {
+		args = append(args, "--csv")
+	} else if r.Chance(1, 2) {
+		args = append(args, "--digits", itoa(r.Range(0, 4)))
+	}
+	if r.Chance(1, 10) {
+		args = append(args, "-a")
+	}
+	return text, strings.Join(shapes, "; "), args
+}
+
+// c06FloatTieWeights: classes of commodities with pairwise equal values on every date (see the stream's header).
+func c06FloatTieWeights(r *RNG, universe bool) (text, uni, shape string, args []string) {
+	base := 737000 + r.Intn(1200)
+	months := r.Range(3, 14)
+	span := months * 30
+	ncls := r.Range(2, 4)
+	nslot := r.Range(1, 3)
+	if universe {
+		nslot = r.Range(5, 8)
+	}
+	// price dates shared by all commodities; one series (cents, multiples of 20) per slot
+	var pdays []int
+	for d := base - 1; d < base+span; d += 26 + r.Intn(9) {
+		pdays = append(pdays, d)
+	}
+	classes := c06Shuffled(r, []string{"Equity:US", "Equity:CH", "Equity:EM", "Bonds:Gov", "Bonds:Corp", "Metals"})[:ncls]
+	if r.Chance(1, 2) {
+		classes = c06Shuffled(r, []string{"Equity:US", "Equity:CH", "Equity:EM", "Equity:JP"})[:ncls] // sibling classes
+	}
+	factors := []int64{1, 1, 2, 4, 5, 10, 20}
+	permuted := r.Chance(1, 3) // the name order inside a class does not follow the slots
+	var prices []string
+	var books []c06FTBook
+	var ub strings.Builder
+	var names [][]string
+	for j := 0; j < ncls; j++ {
+		letters := []string{"A", "B", "C", "D", "E", "F", "G", "H"}[:nslot]
+		if permuted {
+			letters = c06Shuffled(r, letters)
+		}
+		var ns []string
+		for s := 0; s < nslot; s++ {
+			ns = append(ns, fmt.Sprintf("K%d%s", j, letters[s]))
+		}
+		names = append(names, ns)
+		fmt.Fprintf(&ub, "\"%s\": [%s]\n", classes[j], strings.Join(c06Shuffled(r, ns), ", "))
+	}
+	oneAccount := r.Chance(1, 3)
+	for s := 0; s < nslot; s++ {
+		// the slot's buying schedule (tenths of a share) and its price series
+		type buy struct {
+			day int
+			qd  int64
+		}
+		sched := []buy{{base, int64(r.Range(1, 300))}}
+		for q := r.Intn(3); q > 0; q-- {
+			sched = append(sched, buy{base + r.Intn(span), int64(r.Range(-50, 200))})
+		}
+		series := make([]int64, len(pdays))
+		for k := range series {
+			series[k] = 20 * int64(r.Range(15, 4000))
+		}
+		for j := 0; j < ncls; j++ {
+			f := Pick(r, factors)
+			com := names[j][s]
+			for k, d := range pdays {
+				pc := series[k] / f
+				prices = append(prices, fmt.Sprintf("%s price %s %d.%02d CHF\n", fmtDate(d), com, pc/100, pc%100))
+			}
+			acct := "Assets:Portfolio"
+			if !oneAccount {
+				acct = fmt.Sprintf("Assets:Depot%d:%s", j, com)
+			}
+			for _, b := range sched {
+				books = append(books, c06FTBook{b.day, acct, b.qd * 100 * f, com})
+			}
+		}
+	}
+	// further commodities, so that the weights are not constant
+	nother := r.Range(1, 3)
+	var others []string
+	for q := 0; q < nother; q++ {
+		com := fmt.Sprintf("OTH%d", q)
+		others = append(others, com)
+		for _, d := range pdays {
+			pc := int64(r.Range(100, 90000))
+			prices = append(prices, fmt.Sprintf("%s price %s %d.%02d CHF\n", fmtDate(d), com, pc/100, pc%100))
+		}
+		books = append(books, c06FTBook{base + r.Intn(span/2), "Assets:Portfolio", int64(r.Range(1, 500)) * 100, com})
+	}
+	if r.Chance(1, 2) {
+		fmt.Fprintf(&ub, "\"%s\": [%s]\n", Pick(r, []string{"Misc", "Equity:Other", "Alternatives:Hedge:Long"}), strings.Join(others, ", "))
+	}
+	if r.Chance(1, 2) {
+		for _, p := range c06Split(r, int64(r.Range(1, 90000))*10, r.Range(1, 4)) {
+			books = append(books, c06FTBook{base + r.Intn(span), "Assets:Cash", p, "CHF"})
+		}
+		if r.Chance(1, 2) {
+			ub.WriteString("\"Cash\": [CHF]\n")
+		}
+	}
+	// the journal ends on a day of its own, after the last price
+	books = append(books, c06FTBook{base + span + 1, "Assets:Cash", 1000, "CHF"})
+	text = c06FTText(r, base-1, prices, books)
+	args = []string{"portfolio", "weights", "--color=false", "-v", "CHF"}
+	iv := Pick(r, []string{"--months", "--months", "--months", "--quarters", "--weeks", "--days", "--years"})
+	args = append(args, iv)
+	if iv == "--days" || r.Chance(1, 6) {
+		args = append(args, "--last", itoa(r.Range(3, 30)))
+	}
+	if universe {
+		uni = ub.String()
+		args = append(args, "--universe", "@uni.yaml")
+		args = append(args, Pick(r, [][]string{{"-m", "1,.*"}, {"-m", "1,.*"}, {"-m", "2,.*"}, {"-m", "2,."}, {"-m", "1,Equity"}, {"-m", "1:1,."}, {}})...)
+	} else if r.Chance(1, 4) {
+		args = append(args, "-m", Pick(r, []string{"1,.*", "1:0,K0", "2,."}))
+	}
+	if r.Chance(1, 2) {
+		args = append(args, "--csv")
+	} else {
+		args = append(args, "--digits", itoa(Pick(r, []int{0, 2, 6, 12, 15})))
+	}
+	if r.Chance(1, 10) {
+		args = append(args, "-a")
+	}
+	shape = fmt.Sprintf("%d classes %v of %d commodities each, commodity K<j><slot> of class j holds f x the slot's quantities at 1/f of the slot's prices (f in 1, 2, 4, 5, 10, 20); %d price dates; %d further commodities; name order permuted: %v; one account: %v",
+		ncls, classes, nslot, len(pdays), nother, permuted, oneAccount)
+	return text, uni, shape, args
 }
